@@ -377,12 +377,15 @@ def singularityCheck(
     """
     inclined = isInclined(inc)
     eccentric = isEccentric(ecc)
+    # [NOTE]: in-plane angles are measured in the direction of motion, which for a retrograde
+    #   equatorial orbit is opposite to the direction the right ascension is measured in.
+    retro = -1 if inc > 0.5 * PI else 1
     if inclined and eccentric:
         return wrapAngle2Pi(raan), wrapAngle2Pi(argp), wrapAngle2Pi(anomaly)
 
     if not inclined and eccentric:
         # RAAN, Ω, is undefined
-        true_long_rp = wrapAngle2Pi(raan + argp)
+        true_long_rp = wrapAngle2Pi(argp + retro * raan)
         return 0.0, true_long_rp, wrapAngle2Pi(anomaly)
 
     if inclined and not eccentric:
@@ -392,7 +395,7 @@ def singularityCheck(
 
     # else; Circular and Equatorial
     # RAAN, Ω, and Arg. Perigee, ω, are undefined
-    true_long = wrapAngle2Pi(anomaly + argp + raan)
+    true_long = wrapAngle2Pi(anomaly + argp + retro * raan)
     return 0.0, 0.0, true_long
 
 
